@@ -166,8 +166,14 @@ def collect(n, strats):
         q, thr = make_quorum(c, n, strat, "none")
         for i, prof in enumerate(q.colony):
             prof.agent = StubVoter(c, prof.agent.name, i)
-            prof.weight = c.real(f"w{i}", 4, 0, 2)
-            prof.reliability_score = c.real(f"rel{i}", 4, 0, 1)
+            if strat is VotingStrategy.BAYESIAN and n > 2:
+                # the posterior is a product of n (weight x reliability x confidence) factors: beyond degree 2x3
+                # z3 times out, so larger Bayesian electorates get grid-valued (concrete) weights here
+                prof.weight = c.choice(f"w{i}", [1.0, 0.0, 0.5, 2.0])
+                prof.reliability_score = 1.0
+            else:
+                prof.weight = c.real(f"w{i}", 4, 0, 2)
+                prof.reliability_score = c.real(f"rel{i}", 4, 0, 1)
         st, r = call_returns(c, "C06.total", "run_vote", q.run_vote, "proposal")
         if st != "ok":
             c.fail("C06.total", {"what": "run_vote raised", "raised": repr(r)})
